@@ -264,12 +264,17 @@ impl Iterator for TimeSeries {
 
     #[inline]
     fn next(&mut self) -> Option<Epoch> {
-        let next_offset = self.cur * self.step;
-        if (!self.incl && next_offset >= self.duration)
-            || (self.incl && next_offset > self.duration)
-        {
+        // Compare the exact offset with the span: `cur * step` saturates at Duration::MAX, which is never
+        // greater than a span of Duration::MAX itself (such an inclusive series did not terminate).
+        let span_ns = self.duration.total_nanoseconds();
+        let past_the_end = match i128::from(self.cur).checked_mul(self.step.total_nanoseconds()) {
+            Some(offset_ns) => offset_ns > span_ns || (!self.incl && offset_ns == span_ns),
+            None => true,
+        };
+        if past_the_end {
             None
         } else {
+            let next_offset = self.cur * self.step;
             self.cur += 1;
             Some(self.start + next_offset)
         }
